@@ -11,6 +11,7 @@ C20 — schema-level direct oracle: generated schema + elementary edit, on the r
 """
 import copy
 import json
+import os
 
 from gen import schema as gs
 
@@ -480,17 +481,96 @@ def change_key(c):
     return out
 
 
+def gql_canon_default(value, type_):
+    """The default `value` of a position of type `type_` as a GraphQL value, independently of the library's printer:
+    what two defaults must agree on to be 'the same default' (Float 1 = 1.0, ID 1 = "1", an enum member is its NAME,
+    input objects are keyed by field NAME, custom scalars keep the Python kind of every leaf)."""
+    import canon_schema as cs
+    from py_gql.schema import NonNullType, ListType, EnumType, InputObjectType, ScalarType
+    if isinstance(type_, NonNullType):
+        return gql_canon_default(value, type_.type)
+    if value is None:
+        return None
+    if isinstance(type_, ListType):
+        if isinstance(value, (list, tuple)):
+            return [gql_canon_default(v, type_.type) for v in value]
+        return [gql_canon_default(value, type_.type)]
+    if isinstance(type_, EnumType):
+        for ev in type_.values:
+            if ev.value == value and type(ev.value) is type(value):
+                return {"$enum": ev.name}
+        for ev in type_.values:
+            if ev.value == value:
+                return {"$enum": ev.name}
+        return {"$repr": "not-a-member"}
+    if isinstance(type_, InputObjectType):
+        out = {}
+        if not isinstance(value, dict):
+            return {"$repr": "not-a-dict"}
+        for f in type_.fields:
+            key = f.python_name if f.python_name in value else (f.name if f.name in value else None)
+            if key is not None:
+                out[f.name] = gql_canon_default(value[key], f.type)
+        return out
+    if isinstance(type_, ScalarType):
+        n = type_.name
+        try:
+            if n == "Float" and isinstance(value, (int, float)) and not isinstance(value, bool):
+                return {"$float": repr(float(value))}
+            if n == "Int" and isinstance(value, (int, float)) and not isinstance(value, bool) and float(value) == int(value):
+                return int(value)
+            if n == "ID" and isinstance(value, (int, str)) and not isinstance(value, bool):
+                return str(value)
+        except (OverflowError, ValueError):
+            pass
+        if n in ("Int", "Float", "String", "Boolean", "ID"):
+            return cs.canon_value(value)
+        try:
+            return cs.canon_value(type_.serialize(value))
+        except Exception:
+            return cs.canon_value(value)
+    return cs.canon_value(value)
+
+
+def dump_for_diff(schema):
+    """`canon_schema.dump_schema` with every default replaced by its GraphQL-value canonical form"""
+    import canon_schema as cs
+    from py_gql.schema import ObjectType, InterfaceType, InputObjectType
+    d = cs.dump_schema(schema, include_builtin=True)
+    d["directives"] = [x for x in d["directives"] if x["name"] not in ("include", "skip", "deprecated")]
+
+    def patch(dumped_args, live_args):
+        live = {a.name: a for a in live_args}
+        for da in dumped_args:
+            a = live.get(da["name"])
+            if a is not None and a.has_default_value:
+                da["default_value"] = gql_canon_default(a.default_value, a.type)
+    for dt in d["types"]:
+        t = schema.types.get(dt["name"])
+        if isinstance(t, (ObjectType, InterfaceType)):
+            lf = {f.name: f for f in t.fields}
+            for df in dt.get("fields", []):
+                if df["name"] in lf:
+                    patch(df.get("args", []), lf[df["name"]].arguments)
+        elif isinstance(t, InputObjectType):
+            patch(dt.get("input_fields", []), t.fields)
+    for dd in d["directives"]:
+        live = schema.directives.get(dd["name"])
+        if live is not None:
+            patch(dd.get("args", []), live.arguments)
+    return d
+
+
+def model_live_pair(o, n):
+    from py_gql.schema.differ import diff_schema
+    real = sorted([type(c).__name__, int(c.severity), change_key(c)] for c in diff_schema(o, n))
+    return real, {"op": "diff", "min": 0, "old": dump_for_diff(o), "new": dump_for_diff(n)}
+
+
 def model_pair(old_sdl, new_sdl):
     """(real changes with keys, request for the Lean diff model)"""
-    import canon_schema as cs
     from py_gql import build_schema
-    from py_gql.schema.differ import diff_schema
-    o, n = build_schema(old_sdl), build_schema(new_sdl)
-    real = sorted([type(c).__name__, int(c.severity), change_key(c)] for c in diff_schema(o, n))
-    req = {"op": "diff", "min": 0, "old": cs.dump_schema(o, include_builtin=True), "new": cs.dump_schema(n, include_builtin=True)}
-    for side in ("old", "new"):
-        req[side]["directives"] = [d for d in req[side]["directives"] if d["name"] not in ("include", "skip", "deprecated")]
-    return real, req
+    return model_live_pair(build_schema(old_sdl), build_schema(new_sdl))
 
 
 def changes(old_sdl, new_sdl, min_severity=None):
@@ -783,6 +863,7 @@ def _run(ctx):
     want = ctx.n(4, 25)
     for sig, what in same_response_shape_case(ctx):
         ctx.fail(sig, what, {"same_response_shape_case": True, "what": what})
+    hash_order_stage(ctx)
     for e in EDITS:
         got = 0
         for j in range(want * 12):
@@ -809,6 +890,9 @@ def _run(ctx):
                 ctx.fail(sig, what, {"code_enum_seed": seed, "what": what})
             for sig, what in history_case(ctx, seed):
                 ctx.fail(sig, what, {"history_seed": seed, "what": what})
+        if i % 10 == 0:
+            for sig, what in code_vs_sdl_case(ctx, seed):
+                ctx.fail(sig, what, {"code_vs_sdl_seed": seed, "what": what})
         if i % 2 == 0:
             for sig, what in code_default_case(ctx, seed):
                 ctx.fail(sig, what, {"code_default_seed": seed, "what": what})
@@ -972,11 +1056,163 @@ def code_default_case(ctx, seed):
     if not differ and ch:
         fails.append(("equal-defaults-reported:%s" % pos, "defaults %r / %r are the same value but %s was reported" % (a, b, ch)))
     if ctx.model_ok:
-        real = sorted([type(c).__name__, int(c.severity), change_key(c)] for c in chs)
-        req = {"op": "diff", "min": 0, "old": cs.dump_schema(o, include_builtin=True), "new": cs.dump_schema(n, include_builtin=True)}
-        for side in ("old", "new"):
-            req[side]["directives"] = [d for d in req[side]["directives"] if d["name"] not in ("include", "skip", "deprecated")]
+        real, req = model_live_pair(o, n)
         ctx.pending_model.append(("code-default:" + pos, "fwd", real, req, "code-built default %r" % (a,), "code-built default %r" % (b,)))
+    return fails
+
+
+# ---------------------------------------------------------------------------
+# hash ordering: the ORDERED report of a fresh interpreter must not depend on PYTHONHASHSEED (hunt2 C20/3)
+# ---------------------------------------------------------------------------
+_HASH_CHILD = r"""
+import json, sys
+from py_gql import build_schema
+from py_gql.schema.differ import diff_schema
+out = []
+for old_sdl, new_sdl in json.load(sys.stdin):
+    try:
+        o, n = build_schema(old_sdl), build_schema(new_sdl)
+        out.append([[type(c).__name__, int(c.severity), str(c.message)] for c in diff_schema(o, n)])
+    except Exception as e:
+        out.append(["raised", type(e).__name__])
+json.dump(out, sys.stdout)
+"""
+
+FIXED_MULTI = [
+    ("union U = A | B | C | D | E\ntype A { a: Int } type B { a: Int } type C { a: Int } type D { a: Int } type E { a: Int }\n"
+     "directive @dir on QUERY | MUTATION | SUBSCRIPTION | FIELD | FRAGMENT_SPREAD | INLINE_FRAGMENT\ntype Query { u: U }",
+     "union U = A\ntype A { a: Int } type B { a: Int } type C { a: Int } type D { a: Int } type E { a: Int }\n"
+     "directive @dir on FIELD | INLINE_FRAGMENT\ntype Query { u: U }"),
+]
+
+
+def hash_order_stage(ctx):
+    """Several elements removed / added at once (several union members, directive locations, fields, enum values,
+    arguments, types): the ordered list of changes is computed in fresh interpreters under different hash seeds and
+    compared, both ways round."""
+    import random
+    import subprocess
+    import sys as _sys
+    import common
+    rng = random.Random(ctx.rng.randrange(1 << 30))
+    pairs = [list(p) for p in FIXED_MULTI] + [[b, a] for a, b in FIXED_MULTI]
+    tries = 0
+    while len(pairs) < ctx.n(10, 40) and tries < 200:
+        tries += 1
+        d = gs.gen_schema(rng, size=rng.randint(2, 3))
+        n = d
+        applied = 0
+        for _ in range(8):
+            r = rng.choice(EDITS)(rng, n)
+            if r is not None:
+                n = r[0]
+                applied += 1
+        if applied < 3:
+            continue
+        try:
+            a, b = gs.to_sdl(d), gs.to_sdl(n)
+            changes(a, b)
+        except Exception:
+            continue
+        pairs.append([a, b])
+        pairs.append([b, a])
+    outs = {}
+    for hs in ("0", "1", "2", "7", "4242"):
+        env = dict(os.environ, PYTHONHASHSEED=hs, PYTHONPATH=str(common.REPO / "src"))
+        p = subprocess.run([_sys.executable, "-c", _HASH_CHILD], input=json.dumps(pairs).encode(), stdout=subprocess.PIPE,
+                           stderr=subprocess.PIPE, env=env, timeout=300)
+        if p.returncode != 0:
+            ctx.stat("hash-order-child-failed")
+            ctx.notes.append("hash-order child failed: " + p.stderr.decode("utf-8", "replace")[-300:])
+            return
+        outs[hs] = json.loads(p.stdout.decode())
+    ref = outs["0"]
+    for i, pr in enumerate(pairs):
+        ctx.count()
+        multi = len(ref[i]) if ref[i] and ref[i][0] != "raised" else 0
+        ctx.stat("hash-order-pair:%s" % ("multi" if multi >= 3 else "small"))
+        ctx.nontrivial(("hash-order", i, multi))
+        for hs, o in outs.items():
+            if o[i] != ref[i]:
+                same_set = sorted(map(str, o[i])) == sorted(map(str, ref[i]))
+                cls = sorted({c[0] for c in o[i] + ref[i] if isinstance(c, list)} if same_set else {"?"})
+                first = next((c[0] for c, c2 in zip(o[i], ref[i]) if c != c2), "?") if same_set else "?"
+                ctx.fail("hash-seed-dependent:%s:%s" % ("order" if same_set else "content", first),
+                         "diff_schema yields a different %s under PYTHONHASHSEED=%s than under 0" % ("order" if same_set else "set", hs),
+                         {"hash_pair": pr, "seeds": ["0", hs], "under_0": ref[i][:8], "under_other": o[i][:8]})
+                break
+
+
+# ---------------------------------------------------------------------------
+# a code-built schema against the schema built from its own SDL (hunt2 C20/1, C20/2): structurally equal
+# ---------------------------------------------------------------------------
+def code_vs_sdl_case(ctx, seed):
+    import random
+    import datetime
+    from py_gql import build_schema
+    from py_gql.schema import (Schema, ObjectType, Field, Argument, InputObjectType, InputField, ScalarType, EnumType,
+                               EnumValue, Directive, Int, Float, ID, String, ListType, NonNullType)
+    rng = random.Random(seed)
+
+    class DateScalar(ScalarType):
+        pass
+
+    class ColorEnum(EnumType):
+        pass
+
+    def build(swap=False, page=5):
+        Date = DateScalar("Date", serialize=lambda d: d.isoformat() if hasattr(d, "isoformat") else str(d),
+                          parse=lambda s: s)
+        vals = [("RED", 2 if swap else 1), ("GREEN", 1 if swap else 2), ("BLUE", 3)]
+        Color = ColorEnum("Color", [EnumValue(n, v) for n, v in vals])
+        Page = InputObjectType("Page", [InputField("pageSize", Int, default_value=10, python_name="page_size"),
+                                        InputField("tags", ListType(String))])   # (no second default: C12's H2 — a code default that omits a defaulted field — is not this property)
+        args = [Argument("fl", Float, default_value=1), Argument("fl2", ListType(Float), default_value=[1, 2.5]),
+                Argument("id", ID, default_value=1), Argument("c", Color, default_value=1),
+                Argument("cs", ListType(NonNullType(Color)), default_value=[1, 3]),
+                Argument("d", Date, default_value=datetime.date(2020, 1, 1)),
+                Argument("p", Page, default_value={"page_size": page})]
+        rng.shuffle(args)
+        q = ObjectType("Query", [Field("f", Int, args=args), Field("when", Date), Field("col", Color)])
+        return Schema(q, directives=[Directive("lim", ["FIELD"], args=[Argument("n", Float, default_value=3)])])
+
+    fails = []
+    try:
+        code = build()
+        sdl = code.to_string()
+        rebuilt = build_schema(sdl)
+    except Exception as e:  # noqa
+        ctx.stat("code-vs-sdl-skipped:" + type(e).__name__)
+        return fails
+    ctx.stat("code-vs-sdl-case")
+    ctx.nontrivial(("code-vs-sdl", seed % 7))
+    for name, a, b in (("code-vs-own-sdl", code, rebuilt), ("own-sdl-vs-code", rebuilt, code)):
+        if ctx.model_ok:
+            real, req = model_live_pair(a, b)
+            ctx.pending_model.append((name, "fwd", real, req, "code-built (see code_vs_sdl_case)", sdl))
+        ch = diff_live(a, b)
+        if ch:
+            cls = sorted({c[0] for c in ch})
+            fails.append(("diff-of-equal-schemas-nonempty:%s:%s" % (name, ",".join(cls)),
+                          "a code-built schema and the schema built from its own to_string() are structurally equal but %s was reported" % (ch[:3],)))
+    # an enum default edited A -> B while the internal values are swapped: the Python default is the same object
+    try:
+        swapped = build(swap=True)
+        if swapped.to_string() != sdl:
+            if ctx.model_ok:
+                real, req = model_live_pair(code, swapped)
+                ctx.pending_model.append(("code-enum-values-swapped", "fwd", real, req, sdl, swapped.to_string()))
+            ch = diff_live(code, swapped)
+            for el in ("c", "cs"):
+                if not any(c[0] == "FieldArgumentDefaultValueChange" and (" %s " % el) in c[2] for c in ch):
+                    fails.append(("default-edit-not-reported:enum-internal-values-swapped",
+                                  "enum default of argument %s changed name (internal values swapped) but no change names it: %s" % (el, ch[:4])))
+        other = build(page=6)
+        ch = diff_live(code, other)
+        if not any(c[0] == "FieldArgumentDefaultValueChange" and " p " in c[2] for c in ch):
+            fails.append(("default-edit-not-reported:input-object-python-name", "default {pageSize: 5} -> {pageSize: 6} not reported: %s" % (ch[:4],)))
+    except Exception as e:  # noqa
+        fails.append(("differ-raises:code-built:%s" % type(e).__name__, repr(e)))
     return fails
 
 
@@ -1174,6 +1410,18 @@ def replay(ctx, data):
         return not code_enum_case(ctx, inp["code_enum_seed"])
     if "history_seed" in inp:
         return not history_case(ctx, inp["history_seed"])
+    if "code_vs_sdl_seed" in inp:
+        ctx.pending_model = []
+        return not code_vs_sdl_case(ctx, inp["code_vs_sdl_seed"])
+    if "hash_pair" in inp:
+        import subprocess, sys as _sys, common
+        outs = []
+        for hs in inp["seeds"]:
+            env = dict(os.environ, PYTHONHASHSEED=hs, PYTHONPATH=str(common.REPO / "src"))
+            p = subprocess.run([_sys.executable, "-c", _HASH_CHILD], input=json.dumps([inp["hash_pair"]]).encode(),
+                               stdout=subprocess.PIPE, env=env, timeout=120)
+            outs.append(p.stdout)
+        return len(set(outs)) == 1
     if "code_default_seed" in inp:
         ctx.pending_model = []
         return not code_default_case(ctx, inp["code_default_seed"])
